@@ -134,7 +134,8 @@ CHECKS = {
                  "numpy's index arithmetic for the reductions is in the model (Np/Model/ReduceFns.lean): sum_axis_table / sum_axis_is_the_sum, "
                  "sum_axes_table / sum_axes_single, cumsum_table, diff_table, diff_twice_table (1,-2,1), ediff1d_table, prod_groups_table "
                  "(row of every output multi-index = exactly the inputs along the axis); inner / outer / matmul (BilinearFns) end to end: "
-                 "matmul_is_sum_of_products, stacked_matmul_is_sum_of_products, outer_is_products, inner_is_sum_of_products. "
+                 "matmul_is_sum_of_products, stacked_matmul_is_sum_of_products, outer_is_products, inner_is_sum_of_products; ReduceFns2: "
+                 "diff_with_prepend_append, prod_axes_groups (numpy's semantics for axis tuples). "
                  "Weights come from numpy on unit vectors, product groups from numpy on index arrays, and the model's own tables are compared with them in every run.",
          "note": BASE_NOTE + " Known findings D21 (matmul with 1-d operands) and D22 (prod over an axis tuple) are pinned by the package's docstrings/tests and reported as KNOWN-FINDING."},
  "C11": {"ref": "5/C11", "technique": "Lean 4 pattern theorems + decide over the regenerated registries (every registered function classified) + correspondence against numpy on constants",
@@ -146,7 +147,8 @@ CHECKS = {
                  "statement on values: const_arith, const_gather, const_linear, const_prod, const_bilinear, const_compare - on "
                  "constants the executable operations ARE numpy's operations on the underlying values, whatever the options. numpy's semantics on "
                  "integer / rational value arrays is in the model too (ConstFns: argmax_first_occurrence, argmax_axis, floor_divide_remainder, "
-                 "rint_half_to_even, isclose_is_relative_to_b, nonzero_lists_nonzeros) and compared with numpy in every run. The run "
+                 "rint_half_to_even, isclose_is_relative_to_b, nonzero_lists_nonzeros; ElemFns: elementwise_broadcast, comparisons_trichotomy, "
+                 "floor_divide_remainder_broadcast) and compared with numpy in every run. The run "
                  "calls every registered function on constant polynomials next to numpy on the raw arrays over axis / "
                  "keepdims grids, and the numeric division functions with non-constant divisors (FeatureNotSupported).",
          "note": BASE_NOTE + " Pattern-level: theorems cover the patterns, the per-function assignment is tied by the run. Known findings D9b, D21, D22, D29 are pinned by the package's own tests/docstrings."},
